@@ -91,6 +91,7 @@ type Event struct {
 
 // Sim is one simulated execution.
 type Sim struct {
+	tickLag bool // ticker values suffer drawn delays (SetTickLag)
 	mu           sync.Mutex
 	cfg          Config
 	tasks        []*Task
